@@ -3,7 +3,7 @@
 __all__ = ['Property']
 
 import cssutils
-from cssutils.helper import Deprecated
+from cssutils.helper import Deprecated, asciilower
 
 from .value import PropertyValue
 
@@ -209,7 +209,7 @@ class Property(cssutils.util.Base):
         def _ident(expected, seq, token, tokenizer=None):
             # name
             if 'name' == expected:
-                new['literalname'] = self._tokenvalue(token).lower()
+                new['literalname'] = asciilower(self._tokenvalue(token))
                 seq.append(new['literalname'])
                 return 'EOF'
             else:
